@@ -214,6 +214,18 @@ func c09Slots() []*uint256.Int {
 	return []*uint256.Int{uint256.NewInt(0), uint256.NewInt(1), uint256.NewInt(5), uint256.NewInt(255), new(uint256.Int).Lsh(uint256.NewInt(1), 64), h1, h2}
 }
 
+func c09WordsFor(thorough bool) []common.Hash {
+	w := c09Words()
+	if thorough {
+		w = append(w,
+			common.HexToHash("0x8000000000000000000000000000000000000000000000000000000000000001"),
+			common.HexToHash("0xfedcba9876543210fedcba9876543210fedcba9876543210fedcba9876543210"),
+			common.HexToHash("0x00ff00ff00ff00ff00ff00ff00ff00ff00ff00ff00ff00ff00ff00ff00ff00ff"),
+			common.HexToHash("0x0000000000000000000000000000000100000000000000000000000000000000"))
+	}
+	return w
+}
+
 func c09Words() []common.Hash {
 	return []common.Hash{gen.Pattern, {}, common.HexToHash("0xffffffffffffffffffffffffffffffffffffffffffffffffffffffffffffffff"),
 		common.HexToHash("0x0000000000000000000000000000000000000000000000000000000000c0ffee"), common.HexToHash("0x00000000000000000000000000000000000000000000000000000000000000ff")}
@@ -264,7 +276,7 @@ func c09ForEach(w *fw.W, fn func(c *c09Case)) {
 				if !th && si%2 == 1 && v.Via != "direct" {
 					continue
 				}
-				for wi, word := range c09Words() {
+				for wi, word := range c09WordsFor(th) {
 					if !th && wi > 1 && (v.Via != "direct" || v.Static) {
 						continue
 					}
@@ -283,6 +295,9 @@ func c09ForEach(w *fw.W, fn func(c *c09Case)) {
 				}
 				// reference journal: every length 0..130 x content patterns
 				maxLen := 130
+				if th {
+					maxLen = 300
+				}
 				for n := 0; n <= maxLen; n++ {
 					for name, data := range c09Contents(n) {
 						if !w.Mine() {
@@ -329,7 +344,7 @@ func init() {
 		Rule: "value journal: 5 words x every (offset, width) in ([0,34] + {256, 2^64-1, 2^64, 2^256-1})^2 x 7 slots (small, 2^64, hashed, hashed with leading zero byte) x variants {direct, static, SSTORE-just-before, via DELEGATECALL, via CALLCODE with fresh store, static+DELEGATECALL}; reference journal: every length 0..130 x {distinct, leading zeros, all zero, trailing zero} x slots x variants + 10 invalid/unusual head words. The code account of the DELEGATECALL/CALLCODE variants holds complemented words at the same slots. Oracle: recorded bytes (by name and by slot) == reference decoder applied to the executing contract's storage at the journal step; invalid field/encoding => frame fails and nothing is recorded. non-trivial = distinct cases whose operands/encoding are valid (a value must be recorded)",
 		Assumptions: []string{"strings longer than 130 bytes and storage words outside the 5-word alphabet are not covered", "quick tier thins slots/words for the indirect variants (bounds in evidence)"},
 		Bounds: func(t string) map[string]any {
-			return map[string]any{"offset_width_values": 39, "string_lengths": "0..130", "slots": 7, "forks": map[string]int{"quick": 1, "thorough": 4}[t]}
+			return map[string]any{"offset_width_values": 39, "string_lengths": map[string]string{"quick": "0..130", "thorough": "0..300"}[t], "slots": 7, "forks": map[string]int{"quick": 1, "thorough": 4}[t]}
 		},
 		Quick:    60 * time.Second,
 		Thorough: 20 * time.Minute,
